@@ -46,6 +46,42 @@ def ScalarOut.norm (w : Nat) (o : ScalarOut) : ScalarOut := { o with dst := o.ds
 /-- SCC is one bit -/
 def ScalarIn.sccOk (i : ScalarIn) : Prop := i.scc = 0#8 ∨ i.scc = 1#8
 
+/-- The architectural input of a scalar instruction: the SCC register is ONE bit (a `Bool`), all
+    other fields as in `ScalarIn`.  `ScalarIn` (what the Go handlers see: `SCC() byte`) is obtained by
+    `toIn`; `MgpuProofs/Props/C03S.lean: scc_is_bit` proves that every state reachable by executing
+    scalar instructions from a state whose SCC is a bit has an input of this form. -/
+structure ArchIn where
+  src0 : BitVec 64
+  src1 : BitVec 64
+  dstOld : BitVec 64
+  scc : Bool
+  vcc : BitVec 64
+  exec : BitVec 64
+  pc : BitVec 64
+  simm16 : BitVec 64
+deriving Repr, DecidableEq
+
+def ArchIn.toIn (a : ArchIn) : ScalarIn :=
+  { src0 := a.src0, src1 := a.src1, dstOld := a.dstOld, scc := if a.scc then 1#8 else 0#8,
+    vcc := a.vcc, exec := a.exec, pc := a.pc, simm16 := a.simm16 }
+
+/-- the cells a scalar opcode may write (its architected destinations) -/
+structure Writes where
+  dst : Bool
+  scc : Bool
+  vcc : Bool
+  exec : Bool
+  pc : Bool
+deriving Repr, DecidableEq
+
+/-- what is written to SCC, if anything, is 0 or 1 -/
+def SccBit (o : Option (BitVec 8)) : Prop := o = none ∨ o = some 0#8 ∨ o = some 1#8
+
+/-- the output record touches only the cells `w` allows and keeps SCC a bit -/
+def ScalarOut.WritesOnly (o : ScalarOut) (w : Writes) : Prop :=
+  (w.dst = false → o.dst = none) ∧ (w.scc = false → o.scc = none) ∧ (w.vcc = false → o.vcc = none) ∧
+  (w.exec = false → o.exec = none) ∧ (w.pc = false → o.pc = none) ∧ SccBit o.scc
+
 /-! Go helpers used by translated handlers -/
 namespace Go
 /-- `bitops.ExtractBitsFromU32(n, lo, hi)` with `int` positions (Go: shift count ≥ width gives 0;
